@@ -79,6 +79,7 @@ class Program:
         """mir_path: textual MIR dump; src_root: /repo; crate_dir: e.g. html5ever"""
         self.src_root = src_root
         self.crate_dir = crate_dir
+        self.mir_path = mir_path
         self.fns = parse_file(mir_path)
         self.models = models            # normalised callee -> python fn(machine, args, callee)
         self._blocks = {}
@@ -308,10 +309,24 @@ class Program:
             return Str([ord(ch) for ch in _unescape(c[1:-1])])
         if c.startswith('b"'):
             return Str(list(_unescape_bytes(c[2:-1])), True)
-        mm = re.match(r"^\{alloc\d+: (.*)\}$", c, re.S)
+        mm = re.match(r"^\{(alloc\d+): (.*)\}$", c, re.S)
         if mm:
-            from .models import Opaque
-            return Opaque("static", (mm.group(1),))
+            from .models import Opaque, some, none
+            from .mirparse import ALLOCS
+            ty = mm.group(2).strip()
+            ent = ALLOCS.get(self.mir_path, {}).get(mm.group(1))
+            m2 = re.match(r"^&\[(?:std::option::)?Option<char>; (\d+)\]$", ty)
+            if m2 and ent and ent[1] is not None and len(ent[1]) == 4 * int(m2.group(1)):
+                key = ("alloc", mm.group(1))
+                if key not in self.statics:
+                    b = ent[1]
+                    vals = []
+                    for i in range(int(m2.group(1))):
+                        w = b[4 * i] | b[4 * i + 1] << 8 | b[4 * i + 2] << 16 | b[4 * i + 3] << 24
+                        vals.append(some(w) if w <= 0x10FFFF else none())
+                    self.statics[key] = Ptr([Arr(vals)], 0)
+                return self.statics[key]
+            return Opaque("static", (ty,))
         if c.startswith("ZeroSized: "):
             z = c[len("ZeroSized: "):].strip()
             if z.startswith("{closure@"):
